@@ -309,3 +309,78 @@ if __name__ == '__main__':
     sys.path.insert(0, '/repo')
     for name, facts in analyse_all():
         print(name, json.dumps(facts, indent=1))
+
+
+# ---------------------------------------------------------------------------------------
+# class-level state shared between the classes of a module (the lexer dialects are subclasses built at import time)
+
+def shared_class_writes(source):
+    """For a module's source: the places where a function or method stores into an object that lives at class level -
+    `self.X[...] = v`, `self.X.append(...)`, `Cls.X[...] = v`, or the same through a local bound to `self.X` / `Cls.X`
+    without a copy - where X is assigned in some class body of the module (to any value) and never assigned on `self`.
+    Class bodies themselves may fill their tables freely (they run once, when the class is made).
+    Returns sorted strings "<function>: <how> <X>"."""
+    tree = ast.parse(source)
+    classes = [n for n in tree.body if isinstance(n, ast.ClassDef)]
+    cnames = {c.name for c in classes}
+    class_attrs = set()
+    for c in classes:
+        for st in c.body:
+            targets = []
+            if isinstance(st, ast.Assign):
+                targets = st.targets
+            elif isinstance(st, (ast.AugAssign, ast.AnnAssign)):
+                targets = [st.target]
+            for t in targets:
+                if isinstance(t, ast.Name):
+                    class_attrs.add(t.id)
+    funcs = []
+    for c in classes:
+        funcs += [(c.name + '.' + f.name, f) for f in c.body if isinstance(f, ast.FunctionDef)]
+    funcs += [(f.name, f) for f in tree.body if isinstance(f, ast.FunctionDef)]
+    # attributes (re)bound on the instance somewhere are instance state, not class state
+    inst = set()
+    for _, f in funcs:
+        for n in ast.walk(f):
+            if isinstance(n, (ast.Assign, ast.AugAssign)):
+                for t in (n.targets if isinstance(n, ast.Assign) else [n.target]):
+                    if isinstance(t, ast.Attribute) and isinstance(t.value, ast.Name) and t.value.id == 'self':
+                        inst.add(t.attr)
+    shared = class_attrs - inst
+
+    def class_obj(e):
+        """name of the class-level attribute an expression denotes (no copy in between), else None"""
+        if isinstance(e, ast.Attribute) and isinstance(e.value, ast.Name) and (e.value.id == 'self' or e.value.id in cnames or e.value.id == 'cls'):
+            return e.attr if e.attr in shared else None
+        return None
+    out = set()
+    for fname, f in funcs:
+        alias = {}
+        for n in ast.walk(f):
+            if isinstance(n, ast.Assign) and len(n.targets) == 1 and isinstance(n.targets[0], ast.Name):
+                a = class_obj(n.value)
+                if a:
+                    alias[n.targets[0].id] = a
+
+        def target_of(e):
+            a = class_obj(e)
+            if a:
+                return a
+            if isinstance(e, ast.Name) and e.id in alias:
+                return alias[e.id]
+            return None
+        for n in ast.walk(f):
+            if isinstance(n, (ast.Assign, ast.AugAssign, ast.Delete)):
+                tgts = n.targets if isinstance(n, (ast.Assign, ast.Delete)) else [n.target]
+                for t in tgts:
+                    if isinstance(t, ast.Subscript):
+                        a = target_of(t.value)
+                        if a:
+                            out.add('%s: stores into %s' % (fname, a))
+                    if isinstance(t, ast.Attribute) and isinstance(t.value, ast.Name) and (t.value.id in cnames or t.value.id == 'cls') and t.attr in class_attrs:
+                        out.add('%s: rebinds %s.%s' % (fname, t.value.id, t.attr))
+            if isinstance(n, ast.Call) and isinstance(n.func, ast.Attribute) and n.func.attr in MUTATORS:
+                a = target_of(n.func.value)
+                if a:
+                    out.add('%s: %s() on %s' % (fname, n.func.attr, a))
+    return sorted(out)
